@@ -212,6 +212,54 @@ def rule(reason_success, reason_on_shutdown_list, unrecoverable, agg, any_prod_f
     return finished, shutdown, failed
 
 
+class FakeFinish(Target):
+    """A component that is never launched (its producers failed / were shut down, or the controller stops) receives
+    EXACTLY the final state the scheduler decided, exactly once, is recorded as staged (so it is not decided again) and its
+    finished-notification is routed to finishedCheck (so its own consumers are resolved in turn)."""
+    prop = 'C02'
+    name = 'Controller._fake_finish_with_state'
+    file = 'python/experiment/runtime/control.py'
+    qualname = 'Controller._fake_finish_with_state'
+    compare_return = False
+    trusted = ["reactivex pipe/subscribe register the callbacks", "ComponentState.finish(state) moves the component to that state"]
+
+    def setup(self, c):
+        g = c.ghost
+        g['finish'] = []
+        g['subscribed'] = []
+        state = c.one_of('new_state', [codes.SHUTDOWN_STATE, codes.FAILED_STATE, codes.FINISHED_STATE])
+
+        def observable(tag):
+            o = Obj('observable-' + tag)
+            o.pipe = Extern('pipe', lambda c, *a: o)
+            o.subscribe = Extern('subscribe', lambda c, **k: g['subscribed'].append((tag, sorted(k))))
+            return o
+        comp = Obj('ComponentState', specification=Obj('spec', reference='stage1.c'), notifyFinished=observable('finished'),
+                   notifyPostMortem=observable('postmortem'), finishCalled=False, state='running',
+                   finish=Extern('ComponentState.finish', lambda c, s: g['finish'].append(s)))
+        staged = set()
+        this = Obj('controller', log=NULLLOG, comp_staged_in=staged, controllerPool='pool',
+                   statusDatabase=Obj('statusdb', monitorComponent=Extern('monitorComponent', lambda c, comp: None)),
+                   finishedCheck=Extern('finishedCheck', lambda c, *a: None), postMortemCheck=Extern('postMortemCheck', lambda c, *a: None),
+                   handleError=Extern('handleError', lambda c, *a: None))
+        return State(args=[this, comp, state], comp=comp, staged=staged, state=state)
+
+    def externs(self, c, st):
+        return {'op.observe_on': Extern('op.observe_on', lambda c, *a: 'op'), 'op.filter': Extern('op.filter', lambda c, *a: 'op'),
+                'experiment.runtime.utilities.rx.report_exceptions': Extern('report_exceptions', lambda c, f, *a, **k: f)}
+
+    def ensures(self, c, st, out):
+        if out.kind == 'raise':
+            return [('no-exception', False)]
+        g = c.ghost
+        return [('receives-exactly-the-decided-final-state-once', g['finish'] == [st.state]),
+                ('is-recorded-as-staged', st.comp in st.staged),
+                ('its-finished-notification-is-observed', any(tag == 'finished' and 'on_next' in keys for tag, keys in g['subscribed']))]
+
+    def cross_compare(self, *a):
+        return []
+
+
 class UniqueOutcome(Lemma):
     """the rule gives exactly one final state, and it is a function of its arguments: by induction over a topological
     index, two terminated executions with the same exit reasons assign the same final state to every component"""
@@ -234,5 +282,5 @@ class UniqueOutcome(Lemma):
                 ('no-unrecoverable-exit-no-failure-of-its-own', Implies(And(args[0]), Not(x)))]
 
 
-TARGETS = [TransitionToFinalState(), PostMortem(), FinishedCheckOnFailure(), StageStateRule(), RunVerdict(), ScheduleShutdownRule()]
+TARGETS = [TransitionToFinalState(), PostMortem(), FinishedCheckOnFailure(), StageStateRule(), RunVerdict(), ScheduleShutdownRule(), FakeFinish()]
 LEMMAS = [UniqueOutcome()]
